@@ -229,6 +229,21 @@ mutual
 end
 
 mutual
+  /-- every number token with fraction/exponent (or beyond int64) in the tree satisfies `ok` -/
+  def Cst.toksOk (ok : NumTok → Bool) : Cst → Bool
+    | .dbl t => ok t
+    | .arr _ items => items.toksOk ok
+    | .obj _ ms => ms.toksOk ok
+    | _ => true
+  def Items.toksOk (ok : NumTok → Bool) : Items → Bool
+    | .nil => true
+    | .cons _ v _ tl => v.toksOk ok && tl.toksOk ok
+  def Members.toksOk (ok : NumTok → Bool) : Members → Bool
+    | .nil => true
+    | .cons _ _ _ _ v _ tl => v.toksOk ok && tl.toksOk ok
+end
+
+mutual
   /-- nesting depth: scalars 0, a container one more than its deepest child -/
   def Cst.depth : Cst → Nat
     | .arr _ items => items.depth + 1
